@@ -440,6 +440,31 @@ fn grid_jobs(tier: Tier) -> Vec<Job> {
             }
         }
     }
+    // many batches (default schedule): N rows, batch size 1, every N up to 24
+    // (thorough 40): covers batch counts at which several generations end
+    // with a lone FST (e.g. F*F+F+1) and every shape of the generation tree
+    let maxn = if thorough { 40 } else { 24 };
+    for n in 5..=maxn {
+        for fd in 2..=4u32 {
+            for threads in [1u32, 2, 4] {
+                if !thorough && threads == 4 && n % 2 == 0 {
+                    continue;
+                }
+                // distinct keys (bytes must equal the sorted build) ...
+                let distinct: Vec<String> = (0..n).map(|i| format!("k{:02},{}", (i * 41) % n, i + 1)).collect();
+                v.push(Job { set: false, mode: "sum".into(), files: vec![distinct], batch: 1, fd, threads, explore: false, cap_s: 60 });
+                // ... and every key occurring in about three batches
+                if fd == 3 || thorough {
+                    let rep: Vec<String> = (0..n).map(|i| format!("k{:02},{}", i % ((n + 2) / 3), i + 1)).collect();
+                    for mode in ["sum", "max", "min"] {
+                        v.push(Job { set: false, mode: mode.into(), files: vec![rep.clone()], batch: 1, fd, threads, explore: false, cap_s: 60 });
+                    }
+                }
+                let lines: Vec<String> = (0..n).map(|i| format!("k{:02}", (i * 5) % (n - 2))).collect();
+                v.push(Job { set: true, mode: "sum".into(), files: vec![lines], batch: 1, fd, threads, explore: false, cap_s: 60 });
+            }
+        }
+    }
     v
 }
 
@@ -692,7 +717,7 @@ fn main() {
         tier,
         st,
         &rep,
-        "SCHED: the real cmd::map::run / cmd::set::run (merge.rs, util.rs, app.rs included by path) run in-process; every channel send/receive, spawn and thread exit is a scheduling point; for each listed (input, batch size, fd-limit, threads, merge mode) ALL interleavings are explored with happens-before state caching; in every complete execution: exit Ok, no deadlock, every temp file created once, output opens, verifies, conforms to the v3 format (independent decoder), content == model merge (sum/max/min per key over all rows; distinct lines for sets), bytes identical across all schedules; configuration grid under the default schedule: every row sequence of length <= 3 (thorough 4) over {a,1 a,2 b,1 b,2} (sets: {a,b,ab}) x batch 1..R x fd-limit 2..4 x threads 1..4 x 3 modes x one/two input files, plus byte identity with the --sorted build and a library build for inputs without repeated keys; the real binary free-running on a subset. non-trivial = distinct happens-before states of explored configurations".into(),
+        "SCHED: the real cmd::map::run / cmd::set::run (merge.rs, util.rs, app.rs included by path) run in-process; every channel send/receive, spawn and thread exit is a scheduling point; for each listed (input, batch size, fd-limit, threads, merge mode) ALL interleavings are explored with happens-before state caching; in every complete execution: exit Ok, no deadlock, every temp file created once, output opens, verifies, conforms to the v3 format (independent decoder), content == model merge (sum/max/min per key over all rows; distinct lines for sets), bytes identical across all schedules; configuration grid under the default schedule: every row sequence of length <= 3 (thorough 4) over {a,1 a,2 b,1 b,2} (sets: {a,b,ab}) x batch 1..R x fd-limit 2..4 x threads 1..4 x 3 modes x one/two input files; many-batches family: 5..24 (thorough 40) rows with batch size 1 x fd-limit 2..4 x threads {1,2,4} with distinct keys, keys repeated in three batches (3 modes) and line sets; plus byte identity with the --sorted build and a library build for inputs without repeated keys; the real binary free-running on a subset. non-trivial = distinct happens-before states of explored configurations".into(),
         vec![
             "threads of merge.rs interact only through the channels (immutable Arcs otherwise); files are written by one batch and read only in later generations; checked by the unique-file-name trace".into(),
             "two prefixes with equal per-thread histories (incl. identities of received messages) are the same Mazurkiewicz trace and have the same futures".into(),
